@@ -191,7 +191,7 @@ def canary_check(ex):
 def replay_c01(r):
     sys.path.insert(0, os.path.join(runner.VERIF, 'replay'))
     import c01
-    return c01.search(getattr(r, 'model', None), 600)
+    return c01.search(getattr(r, 'model', None), 700)
 
 
 def build(tier, seed):
@@ -206,7 +206,7 @@ def build(tier, seed):
     chk.canary('canary.check.capacity', canary_check)
     chk.replayer('C01.', replay_c01)
     chk.fallback('B4.c01.boundary_grid', lambda: replay_c01(None),
-                 'one provider, one class, 15 inventories x 2 prior usages x <= 19 boundary requests (PUT / POST with 1-2 consumers), <= 600 requests')
+                 'one provider, one class, 15 inventories x 2 prior usages x <= 24 boundary requests (PUT, POST with 1-2 consumers, POST /reshaper installing the inventory and placing the amount in one request), <= 700 requests')
     chk.assume('A-int', 'A-real', 'A-sql', 'A-sum', 'A-key', 'A-heap',
                'A-order', 'A-txn')
     return chk
